@@ -175,6 +175,10 @@ def _case(draw, tier):
         return {'family': 'user', 'exc': draw(st.sampled_from(sorted(USER_EXC))),
                 'site': draw(st.sampled_from(['body', 'validator', 'instancecheck', 'validator-nested', 'instancecheck-nested'])),
                 'ep': draw(st.sampled_from(['is_bearable', 'die_if_unbearable', 'param', 'return']))}
+    if draw(st.integers(0, 7)) == 0:
+        return {'family': 'fwd', 'shape': draw(st.sampled_from(['type', 'Type', 'list', 'opt', 'dict', 'tuple', 'union', 'whole', 'bare'])), 'binding': draw(st.sampled_from(FWD_BINDINGS)),
+                'obj': draw(st.sampled_from(['class', 'intclass', 'instance', 'int', 'list', 'listobj', 'none', 'dict', 'tuple'])),
+                'calls': draw(st.sampled_from([3, 2, 1])), 'conf': draw(st.sampled_from(CONFS))}
     if draw(st.integers(0, 4)) == 0:
         # valid hint from the shared grammar + an object violating it somewhere: rejections must be beartype exceptions too
         node, _n = H.avoid_known_shapes(draw(H.hint_nodes(draw(st.sampled_from([1, 2, 2, 3])))))
@@ -413,7 +417,68 @@ def run_valid(case):
             'classes': ['valid-hint', 'root:' + case['hint'][0], 'conf:' + (case.get('conf') or 'default')]}
 
 
+FWD_SHAPES = {'bare': "'Name'", 'type': "type['Name']", 'Type': "typing.Type['Name']", 'list': "list['Name']",
+              'opt': "typing.Optional['Name']", 'dict': "dict[str, 'Name']", 'tuple': "tuple['Name', ...]", 'whole': "'list[Name]'",
+              'union': "typing.Union['Name', int]"}
+# (Hypothesis over-represents the first element of every sampled_from in rarely taken branches: the plain cases come last)
+FWD_BINDINGS = ['alias-list', 'alias-union', 'alias-dict', 'newtype', 'int', 'module', 'str', 'none', 'undefined', 'class']
+
+
+def run_fwd(case):
+    """Forward references resolved at call time: a callable is decorated while the referenced name is undefined, the name is
+    then bound (to a class, to a valid hint that is no class, to junk, or not at all) and the *same* wrapper is called several
+    times - a referent cached by the first call must not turn later calls into leaks."""
+    import types
+    _UNIQ[0] += 1
+    mod = types.ModuleType('c11fwd_%d' % _UNIQ[0])
+    sys.modules[mod.__name__] = mod
+    fails, seen, evals = [], set(), 0
+    src = ('import typing\nfrom beartype import beartype\n'
+           'def fp(p: %s): return p\n'
+           'def fr(p) -> %s: return p\n' % (FWD_SHAPES[case['shape']], FWD_SHAPES[case['shape']]))
+    try:
+        exec(compile(src, '<c11fwd>', 'exec'), mod.__dict__)
+        with warnings.catch_warnings():
+            warnings.simplefilter('ignore')
+            bt = beartype(conf=_conf(case.get('conf')))
+            wrappers = []
+            for name in ('fp', 'fr'):
+                try:
+                    wrappers.append((name, bt(mod.__dict__[name])))
+                    evals += 1
+                except BaseException as e:
+                    if not _public_beartype(e, BeartypeDecorException):
+                        fails.append({'sig': 'leak:decor:%s@%s' % (type(e).__name__, _where(e)), 'detail': '%s\n%r' % (src, e)})
+            class Target:
+                pass
+            b = case['binding']
+            if b != 'undefined':
+                mod.Name = {'class': Target, 'alias-list': typing.List[int], 'alias-union': typing.Union[int, str],
+                            'alias-dict': typing.Dict[str, int], 'newtype': typing.NewType('NT', int), 'int': 42, 'module': types,
+                            'str': 'int', 'none': None}[b]
+            obj = {'instance': Target(), 'class': Target, 'int': 3, 'intclass': int, 'list': [1], 'listobj': [Target()], 'none': None,
+                   'dict': {'k': Target()}, 'tuple': (Target(),)}[case['obj']]
+            for name, w in wrappers:
+                for i in range(case['calls']):
+                    evals += 1
+                    try:
+                        w(obj)
+                    except BaseException as e:
+                        if not _public_beartype(e) and not isinstance(e, UserViolationError):
+                            sig = 'leak:call:%s@%s' % (type(e).__name__, _where(e))
+                            if sig not in seen:
+                                seen.add(sig)
+                                fails.append({'sig': sig, 'detail': 'shape=%s binding=%s obj=%s call #%d of %s raised %s: %s' % (
+                                    case['shape'], b, case['obj'], i, name, type(e).__name__, str(e)[:300])})
+    finally:
+        sys.modules.pop(mod.__name__, None)
+    return {'fails': fails, 'nontrivial': case['calls'] >= 2 and case['binding'] not in ('class', 'undefined'), 'evals': evals,
+            'classes': ['fwd', 'shape:' + case['shape'], 'binding:' + case['binding'], 'calls:%d' % case['calls']]}
+
+
 def run_case(case):
+    if case['family'] == 'fwd':
+        return run_fwd(case)
     if case['family'] == 'user':
         return run_user(case)
     if case['family'] == 'valid':
